@@ -185,10 +185,10 @@ def big_queries(kind='db', config='base', tier='quick'):
     u = U('tree.cpp', config, defines=['DBKIND=%d' % DBKINDS[kind]], max_node_type=4)
     sfx = '' if (kind, config) == ('db', 'base') else '-%s-%s' % (kind, config)
     return [Query(h + sfx, u, h, unwind=60, unwindset=['m_memset.0:2100'], flags=['--slice-formula'], tier=tier,
-                  loop_bounds=[('::(get|insert|remove)_internal', 3 if h != 'deep_split_get' else 6), ('::try_(get|insert|remove)', 3 if h != 'deep_split_get' else 6), ('inode_256', 260), ('inode_48', 260), (r'^void big_get', 60)],
+                  loop_bounds=[('::(get|insert|remove)_internal', 3 if not h.startswith(('deep_split_get', 'lsplit_collapse')) else 6), ('::try_(get|insert|remove)', 3 if not h.startswith(('deep_split_get', 'lsplit_collapse')) else 6), ('inode_256', 260), ('inode_48', 260), (r'^void big_get', 60)],
                   about='tree grown/shrunk through the node size classes by 17-51 concrete inserts/removes (%s), then get(k) for a fully symbolic key' % what,
                   bounds={'prelude': h, 'symbolic_ops': 1, 'key_bits': 64})
-            for h, what in (('deep_split_get', 'key-prefix splits below the root at three positions and a collapse'), ('big_rem48_00', 'I48 with children at the boundary key bytes 00/01/7F/80/81/FE/FF: remove of the key with byte 00, get of it, get of a second key symbolic in the child-selecting byte'), ('big_rem48_01', 'I48 with children at the boundary key bytes 00/01/7F/80/81/FE/FF: remove of the key with byte 01, get of it, get of a second key symbolic in the child-selecting byte'), ('big_rem48_7F', 'I48 with children at the boundary key bytes 00/01/7F/80/81/FE/FF: remove of the key with byte 7F, get of it, get of a second key symbolic in the child-selecting byte'), ('big_rem48_80', 'I48 with children at the boundary key bytes 00/01/7F/80/81/FE/FF: remove of the key with byte 80, get of it, get of a second key symbolic in the child-selecting byte'), ('big_rem48_81', 'I48 with children at the boundary key bytes 00/01/7F/80/81/FE/FF: remove of the key with byte 81, get of it, get of a second key symbolic in the child-selecting byte'), ('big_rem48_FE', 'I48 with children at the boundary key bytes 00/01/7F/80/81/FE/FF: remove of the key with byte FE, get of it, get of a second key symbolic in the child-selecting byte'), ('big_rem48_FF', 'I48 with children at the boundary key bytes 00/01/7F/80/81/FE/FF: remove of the key with byte FF, get of it, get of a second key symbolic in the child-selecting byte'), ('big_rem48_02', 'I48 with children at the boundary key bytes 00/01/7F/80/81/FE/FF: remove of the key with byte 02, get of it, get of a second key symbolic in the child-selecting byte'), ('big_rem256_00', 'I256 with children at the boundary key bytes 00/01/7F/80/81/FE/FF: remove of the key with byte 00, get of it, get of a second key symbolic in the child-selecting byte'), ('big_rem256_01', 'I256 with children at the boundary key bytes 00/01/7F/80/81/FE/FF: remove of the key with byte 01, get of it, get of a second key symbolic in the child-selecting byte'), ('big_rem256_7F', 'I256 with children at the boundary key bytes 00/01/7F/80/81/FE/FF: remove of the key with byte 7F, get of it, get of a second key symbolic in the child-selecting byte'), ('big_rem256_80', 'I256 with children at the boundary key bytes 00/01/7F/80/81/FE/FF: remove of the key with byte 80, get of it, get of a second key symbolic in the child-selecting byte'), ('big_rem256_81', 'I256 with children at the boundary key bytes 00/01/7F/80/81/FE/FF: remove of the key with byte 81, get of it, get of a second key symbolic in the child-selecting byte'), ('big_rem256_FE', 'I256 with children at the boundary key bytes 00/01/7F/80/81/FE/FF: remove of the key with byte FE, get of it, get of a second key symbolic in the child-selecting byte'), ('big_rem256_FF', 'I256 with children at the boundary key bytes 00/01/7F/80/81/FE/FF: remove of the key with byte FF, get of it, get of a second key symbolic in the child-selecting byte'), ('big_rem256_02', 'I256 with children at the boundary key bytes 00/01/7F/80/81/FE/FF: remove of the key with byte 02, get of it, get of a second key symbolic in the child-selecting byte'), ('big_i48', 'I4->I16->I48'), ('big_i256', '->I256'), ('big_shr16', 'I48->I16'), ('big_shr48', 'I256->I48'), ('big_shr4', 'I48->I16->I4'))]
+            for h, what in (('deep_split_get', 'key-prefix splits below the root at three positions and a collapse'), ('lsplit_collapse_0', 'collapse of a two-child node onto an inner child created by a leaf split (stale key bytes behind its prefix), then get/insert/remove of every key'), ('lsplit_collapse_1', 'same, prefix bytes all different'), ('lsplit_collapse_2', 'same, the collapsing node below the root with a prefix of its own'), ('big_rem48_00', 'I48 with children at the boundary key bytes 00/01/7F/80/81/FE/FF: remove of the key with byte 00, get of it, get of a second key symbolic in the child-selecting byte'), ('big_rem48_01', 'I48 with children at the boundary key bytes 00/01/7F/80/81/FE/FF: remove of the key with byte 01, get of it, get of a second key symbolic in the child-selecting byte'), ('big_rem48_7F', 'I48 with children at the boundary key bytes 00/01/7F/80/81/FE/FF: remove of the key with byte 7F, get of it, get of a second key symbolic in the child-selecting byte'), ('big_rem48_80', 'I48 with children at the boundary key bytes 00/01/7F/80/81/FE/FF: remove of the key with byte 80, get of it, get of a second key symbolic in the child-selecting byte'), ('big_rem48_81', 'I48 with children at the boundary key bytes 00/01/7F/80/81/FE/FF: remove of the key with byte 81, get of it, get of a second key symbolic in the child-selecting byte'), ('big_rem48_FE', 'I48 with children at the boundary key bytes 00/01/7F/80/81/FE/FF: remove of the key with byte FE, get of it, get of a second key symbolic in the child-selecting byte'), ('big_rem48_FF', 'I48 with children at the boundary key bytes 00/01/7F/80/81/FE/FF: remove of the key with byte FF, get of it, get of a second key symbolic in the child-selecting byte'), ('big_rem48_02', 'I48 with children at the boundary key bytes 00/01/7F/80/81/FE/FF: remove of the key with byte 02, get of it, get of a second key symbolic in the child-selecting byte'), ('big_rem256_00', 'I256 with children at the boundary key bytes 00/01/7F/80/81/FE/FF: remove of the key with byte 00, get of it, get of a second key symbolic in the child-selecting byte'), ('big_rem256_01', 'I256 with children at the boundary key bytes 00/01/7F/80/81/FE/FF: remove of the key with byte 01, get of it, get of a second key symbolic in the child-selecting byte'), ('big_rem256_7F', 'I256 with children at the boundary key bytes 00/01/7F/80/81/FE/FF: remove of the key with byte 7F, get of it, get of a second key symbolic in the child-selecting byte'), ('big_rem256_80', 'I256 with children at the boundary key bytes 00/01/7F/80/81/FE/FF: remove of the key with byte 80, get of it, get of a second key symbolic in the child-selecting byte'), ('big_rem256_81', 'I256 with children at the boundary key bytes 00/01/7F/80/81/FE/FF: remove of the key with byte 81, get of it, get of a second key symbolic in the child-selecting byte'), ('big_rem256_FE', 'I256 with children at the boundary key bytes 00/01/7F/80/81/FE/FF: remove of the key with byte FE, get of it, get of a second key symbolic in the child-selecting byte'), ('big_rem256_FF', 'I256 with children at the boundary key bytes 00/01/7F/80/81/FE/FF: remove of the key with byte FF, get of it, get of a second key symbolic in the child-selecting byte'), ('big_rem256_02', 'I256 with children at the boundary key bytes 00/01/7F/80/81/FE/FF: remove of the key with byte 02, get of it, get of a second key symbolic in the child-selecting byte'), ('big_i48', 'I4->I16->I48'), ('big_i256', '->I256'), ('big_shr16', 'I48->I16'), ('big_shr48', 'I256->I48'), ('big_shr4', 'I48->I16->I4'))]
 
 
 def kv_queries(pid='C01'):
@@ -417,6 +417,47 @@ def fault_queries(kind='db', config='base'):
     return qs
 
 
+OLCF_QUICK = {('rins', 'leaf', 1), ('rins', 'leaf', 2), ('rins', 'i4_3', 1), ('rins', 'i4_3', 4), ('rins', 'i4_4', 0), ('rins', 'i4_4', 2), ('rins', 'deep', 1), ('rins', 'deep', 3), ('rins', '2lvl', 4),
+              ('rrem', 'i16_5', 0), ('rrem', 'collapse', 0), ('rrem', 'collapse', 1), ('rrem', 'i4_3', 0), ('rrem', 'leaf', 0)}
+
+
+def olcf_wrappers():
+    import os
+    d = os.path.join(os.path.dirname(os.path.dirname(os.path.abspath(__file__))), '_work', 'gen')
+    os.makedirs(d, exist_ok=True)
+    p = os.path.join(d, 'olcf_wrappers.c')
+    lines = ['/* generated by engine/checks.py: one entry per (structural case, fault position) */', 'static uint64_t ir2c_fixed_k;', 'uint64_t verif_fixed_k(void) { return ir2c_fixed_k; }']
+    for name, ncase in FAULT_CASES.items():
+        for i in range(ncase):
+            for op in ('rins', 'rrem'):
+                lines.append('void %s_%s_%d(void);' % (op, name, i))
+                for f in range(4):
+                    lines.append('void %s_%s_%d__f%d(void) { ir2c_fixed_k = %d; %s_%s_%d(); }' % (op, name, i, f, f, op, name, i))
+    txt = '\n'.join(lines) + '\n'
+    if not os.path.exists(p) or open(p).read() != txt:
+        open(p, 'w').write(txt)
+    return p
+
+
+def olc_fault_queries(config='base', tier_all=None):
+    """olc_db (one registered thread): every structural case x fault position as a generated constant (the OLC index does not fold with a symbolic fault index: > 600 s)"""
+    u = U('fault.cpp', config, defines=['DBKIND=2', 'FAULT_FIXED'], max_node_type=2, extra_glue=[olcf_wrappers()], extern_c=['verif_fixed_k'])
+    qs = []
+    for name, ncase in FAULT_CASES.items():
+        for i in range(ncase):
+            for op, what in (('rins', 'insert'), ('rrem', 'remove')):
+                for f in range(4):
+                    if op == 'rrem' and f == 3:
+                        continue
+                    quick = (op, name, i) in OLCF_QUICK and f > 0
+                    qs.append(Query('olcf-%s_%s_%d__f%d%s' % (op, name, i, f, '' if config == 'base' else '-' + config), u, '%s_%s_%d__f%d' % (op, name, i, f), unwind=12, flags=['--slice-formula'], timeout=600,
+                                    tier=tier_all or ('quick' if quick else 'thorough'), replay='none', trace=False,
+                                    about='olc_db, one registered thread: prelude "%s", %s of structural-case key #%d with allocation #%d failing (0 = none): exception, unchanged entries/statistics/allocations, '
+                                          'then a sweep of inserts and removes next to every key (a node or root lock left behind makes it spin past the loop bound), then the retry' % (name, what, i, f),
+                                    bounds={'prelude': name, 'key': 'generated structural case', 'fault_index': f, 'faults_per_operation': 1, 'index': 'olc_db', 'threads': 1}))
+    return qs
+
+
 def stats_queries(kind='db', config='base'):
     u = fault_unit(kind, config)
     sfx = '' if (kind, config) == ('db', 'base') else '-%s-%s' % (kind, config)
@@ -440,22 +481,56 @@ def stats_queries(kind='db', config='base'):
     return qs
 
 
+QSBRF_FIXED = {'f_retire_1': 2, 'f_retire_2': 2, 'f_retire_1_newepoch': 2, 'f_retire_1_newepoch2': 2, 'f_resume': 3, 'f_thread_start': 4}
+
+
+def qsbrf_wrappers():
+    import os
+    d = os.path.join(os.path.dirname(os.path.dirname(os.path.abspath(__file__))), '_work', 'gen')
+    os.makedirs(d, exist_ok=True)
+    p = os.path.join(d, 'qsbrf_wrappers.c')
+    lines = ['/* generated by engine/checks.py */', 'static uint64_t ir2c_fixed_k;', 'uint64_t verif_fixed_k(void) { return ir2c_fixed_k; }']
+    for h, hi in QSBRF_FIXED.items():
+        lines.append('void %s(void);' % h)
+        for f in range(hi + 1):
+            lines.append('void %s__f%d(void) { ir2c_fixed_k = %d; %s(); }' % (h, f, f, h))
+    txt = '\n'.join(lines) + '\n'
+    if not os.path.exists(p) or open(p).read() != txt:
+        open(p, 'w').write(txt)
+    return p
+
+
 def qsbr_fault_queries():
-    u = U('qsbr_fault.cpp', 'nostats', noinline=['@_ZN5unodb4qsbr10deallocateEPv'], entry_hooks=[(r'^unodb::qsbr::deallocate\(void\*', 'verif_on_free(v_0);')])
-    return [Query('qsbr-' + h, u, h, unwind=10, checks='pointer', flags=['--paths', 'lifo'], replay='none', trace=False,
-                  tier='quick' if h in ('f_retire_0', 'f_thread_start') else 'thorough', timeout=None if h in ('f_retire_0', 'f_thread_start') else 3400,
-                  about='QSBR %s with the k-th allocation failing for symbolic k (path-wise): exception type, thread count, live allocations, retry, exactly-once after the drain' % what,
-                  bounds={'fault_index': 'symbolic', 'faults_per_operation': 1})
-            for h, what in (('f_retire_0', 'deferred-deallocation request, nothing queued'), ('f_retire_1', 'deferred-deallocation request, one request queued'), ('f_resume', 'resume'), ('f_thread_start', 'thread start'))]
+    hooks = dict(noinline=['@_ZN5unodb4qsbr10deallocateEPv'], entry_hooks=[(r'^unodb::qsbr::deallocate\(void\*', 'verif_on_free(v_0);')])
+    u = U('qsbr_fault.cpp', 'nostats', **hooks)
+    what = {'f_retire_0': 'deferred-deallocation request, nothing queued', 'f_retire_1': 'deferred-deallocation request, one request queued', 'f_retire_2': 'deferred-deallocation request, two requests queued',
+            'f_retire_1_newepoch': 'deferred-deallocation request that is the first call to notice an epoch change completed by the others, requests pending in both intervals',
+            'f_retire_1_newepoch2': 'same after two epoch changes (a previous-interval request is due)', 'f_resume': 'resume', 'f_thread_start': 'thread start'}
+    qs = [Query('qsbr-' + h, u, h, unwind=10, checks='pointer', flags=['--paths', 'lifo'], replay='none', trace=False,
+                tier='quick' if h in ('f_retire_0', 'f_thread_start') else 'thorough', timeout=None if h in ('f_retire_0', 'f_thread_start') else 3400,
+                about='QSBR %s with the k-th allocation failing for symbolic k (path-wise): exception type, thread count, live allocations, retry, exactly-once after the drain' % what[h],
+                bounds={'fault_index': 'symbolic', 'faults_per_operation': 1})
+          for h in ('f_retire_0', 'f_retire_1', 'f_resume', 'f_thread_start')]
+    # the same scenarios (and the epoch-change ones) with the fault position as a generated constant: these fold, so they fit the quick tier
+    uf = U('qsbr_fault.cpp', 'nostats', defines=['FAULT_FIXED'], extra_glue=[qsbrf_wrappers()], extern_c=['verif_fixed_k'], **hooks)
+    for h, hi in QSBRF_FIXED.items():
+        for f in range(hi + 1):
+            qs.append(Query('qsbr-%s__f%d' % (h, f), uf, '%s__f%d' % (h, f), unwind=10, checks='pointer', flags=['--slice-formula'], replay='none', trace=False, timeout=600,
+                            about='QSBR %s with allocation #%d failing (0 = none): exception type, requester epoch view and pending lists unchanged, nothing executed or leaked, thread count, retry, exactly-once after the drain' % (what[h], f),
+                            bounds={'fault_index': f, 'faults_per_operation': 1, 'threads': 3}))
+    return qs
+
+
+MUTEX_FAULT_QUICK = {'rins_i4_4_0', 'rins_leaf_1', 'rrem_i16_5_0', 'rins_deep_1', 'h_too_long_absent_0'}
 
 
 def c08():
-    return Check('C08', 'fault_enumeration', fault_queries('db', 'base') + qsbr_fault_queries(),
+    return Check('C08', 'fault_enumeration', fault_queries('db', 'base') + qsbr_fault_queries() + olc_fault_queries() + [q for q in fault_queries('mutex', 'base') if q.entry in MUTEX_FAULT_QUICK],
                  assumptions=['allocation model: the k-th allocation (posix_memalign / operator new) since arming returns failure; one fault per operation',
                               'keys are generated structural cases (duplicate, leaf split at first/middle/last byte, add front/middle/back, prefix split, grow, shrink, collapse) - concrete - '
                               'while the fault position is symbolic; CBMC decides every path separately (--paths lifo), so no fault position within the bound is skipped',
                               'fully symbolic key x symbolic fault position in one merged query exhausts 24 GB (measured) and is outside the claim',
-                              'db instantiation; olc_db/mutex_db variants only in the thorough tier where they fit'],
+                              'olc_db (one registered QSBR thread): the fault position is a generated constant per query (all positions 0..3 of every case; quick tier: 14 cases x positions 1..3); mutex_db: five representative cases with a symbolic position'],
                  explanation='For each generated (tree, key, operation) and EVERY fault position k (symbolic, 0..3: beyond the number of allocations any operation here makes) the solver checks: exception type, '
                              'unchanged entries/values/statistics/live allocations after the failure, and the normal result of the retry. Over-long values: length_error with no effect.')
 
@@ -606,7 +681,8 @@ def c04():
 
 
 def c14():
-    return Check('C14', 'exploration', olc_queries('C14'), assumptions=OLC_ASSUME + ['after every schedule a sweep (get of every key, insert+remove next to every key) must complete within the unwinding bound of the restart loops: '
+    return Check('C14', 'exploration', olc_queries('C14') + olc_fault_queries(), assumptions=OLC_ASSUME + ['allocation failures (the C08 clause of the property): every structural case x every allocation of an insert/remove on the olc_db fails in turn '
+                 '(one registered thread, fault position enumerated); after the exception the same sweep must complete','after every schedule a sweep (get of every key, insert+remove next to every key) must complete within the unwinding bound of the restart loops: '
                  'a lock left held makes the sweep spin past the bound, which is reported'],
                  explanation='No lock left held after any explored schedule; wait cycles among three or more threads are outside the bound (deadlock-freedom proper is not decided).')
 
